@@ -59,7 +59,7 @@ func lookupGates(ctx *core.Ctx, pfx string) {
 	ctx.Rule(G(2), "size gate: in GetFile every nil-error return is on the equal edge of info.Size() == entry.Size, info from a successful os.Stat of the returned name, the name from OutputFile(entry.OutputID)", 1)
 	ctx.Rule(G(3), "strict entry parsing: in get every nil-error return is dominated by: exactly entrySize bytes read, every literal byte of the entry format at its offset, decoded id equal to the requested id, both hex.Decode and both ParseInt succeeding, size >= 0 and time >= 0", 8)
 	ctx.Rule(G(4), "error discipline: every non-nil error returned by Get, get, GetFile, GetBytes is an *entryNotFoundError constructed there, produced by the 'missing' helper or propagated from another of these lookups", 10)
-	ctx.Rule(G(5), "no lookup panics: bounds engine over every module function reachable from Get, GetFile, GetBytes, OutputFile", 15)
+	ctx.Rule(G(5), "no lookup panics: bounds engine over every module function reachable from Get, GetFile, GetBytes, OutputFile", 1)
 	ctx.Rule(G(6), "writer/reader agreement: the Sprintf format of the index entry, applied to its operand types, yields exactly entrySize bytes with literal bytes at exactly the offsets the reader tests; index and data files use distinct key letters consistently between writer and reader", 3)
 
 	get := ctx.Need(G(3), "cache", "(*Cache).get")
